@@ -305,6 +305,127 @@ fn twin_scenario(local: Ty, id_len: usize, first_open: bool) -> Verdict {
     e3::finish(v)
 }
 
+/// "A rejected connection ... leaves the socket's peer set unchanged" - also when the rejected peer ANNOUNCES THE IDENTITY
+/// OF A LIVE PEER: a compatible peer with identity I is admitted and works; a second connection sends a fully valid
+/// greeting and READY with the same identity I but a Socket-Type that is not compatible (PAIR), or not a type at all;
+/// it must be refused, and the first peer must go on working.
+fn impostor_scenario(local: Ty, id_len: usize, bad_type: &'static str) -> Verdict {
+    world::reset(world::WorldCfg { nested_env: false, yields: false, select: false, policy: 0, coop: false });
+    let id: Vec<u8> = (0..id_len).map(|i| b'k' + (i % 13) as u8).collect();
+    let v1 = e3::raw_conn("V1");
+    let v2 = e3::raw_conn("V2");
+    v1.send(&rc::handshake(local.peer_type(), Some(&id)));
+    if matches!(local, Ty::Pub | Ty::XPub) {
+        v1.send(&rc::encode_message(&[vec![1u8]]));
+    }
+    v1.gate("impostor-refused");
+    match local {
+        Ty::Pull | Ty::Dealer | Ty::Router | Ty::Sub => v1.send(&rc::encode_message(&[b"still-here".to_vec()])),
+        Ty::Rep => v1.send(&rc::encode_message(&[vec![], b"still-here".to_vec()])),
+        Ty::Req => e3::make_echo_peer(v1),
+        _ => {}
+    }
+    v2.send(&rc::handshake(bad_type, Some(&id)));
+    let obs = std::rc::Rc::new(std::cell::RefCell::new(Vec::<String>::new()));
+    let obs2 = obs.clone();
+    let id2 = id.clone();
+    world::spawn_app("app", async move {
+        let mut sock = AnySocket::new(local, None);
+        let r = e3::attach_raw(sock.backend(), v1).await;
+        obs2.borrow_mut().push(format!("attach(first) -> {}", e3::ok_or_err(&r)));
+        if local == Ty::XPub {
+            let _ = world::until_idle(sock.recv()).await;
+        } else {
+            world::idle().await;
+        }
+        let r = e3::attach_raw(sock.backend(), v2).await;
+        obs2.borrow_mut().push(format!("attach(impostor) -> {}", if r.is_ok() { "Ok" } else { "Err" }));
+        world::set_cond("impostor-refused");
+        let before = (world::tap_len(v1.from_lib), world::tap_len(v2.from_lib));
+        let mut ok = true;
+        match local {
+            Ty::Router => {
+                let r = world::until_idle(sock.recv()).await;
+                ok &= matches!(r, Some(Ok(_)));
+                let s = sock.send(crate::e1::msg(&[id2.clone(), b"x".to_vec()])).await;
+                obs2.borrow_mut().push(format!("send(to the identity) -> {}", e3::ok_or_err(&s)));
+                ok &= s.is_ok();
+            }
+            Ty::Push | Ty::Dealer => {
+                if local == Ty::Dealer {
+                    let r = world::until_idle(sock.recv()).await;
+                    ok &= matches!(r, Some(Ok(_)));
+                }
+                for i in 0..2 {
+                    let s = sock.send(crate::e1::msg(&[format!("m{}", i).into_bytes()])).await;
+                    obs2.borrow_mut().push(format!("send#{} -> {}", i, e3::ok_or_err(&s)));
+                    ok &= s.is_ok();
+                }
+            }
+            Ty::Req => {
+                let s = sock.send(crate::e1::msg(&[b"q".to_vec()])).await;
+                obs2.borrow_mut().push(format!("send -> {}", e3::ok_or_err(&s)));
+                let r = world::until_idle(sock.recv()).await;
+                ok &= s.is_ok() && matches!(r, Some(Ok(_)));
+            }
+            Ty::Pub | Ty::XPub => {
+                let s = sock.send(crate::e1::msg(&[b"news".to_vec()])).await;
+                obs2.borrow_mut().push(format!("publish -> {}", e3::ok_or_err(&s)));
+                ok &= s.is_ok();
+            }
+            Ty::Rep => {
+                let r = world::until_idle(sock.recv()).await;
+                ok &= matches!(r, Some(Ok(_)));
+                let s = sock.send(crate::e1::msg(&[b"a".to_vec()])).await;
+                obs2.borrow_mut().push(format!("reply -> {}", e3::ok_or_err(&s)));
+                ok &= s.is_ok();
+            }
+            Ty::Pull | Ty::Sub => {
+                let r = world::until_idle(sock.recv()).await;
+                obs2.borrow_mut().push(format!("recv -> {}", r.as_ref().map(e3::show_result).unwrap_or_else(|| "pending".into())));
+                ok &= matches!(r, Some(Ok(_)));
+            }
+        }
+        world::idle().await;
+        let wrote_first = world::tap_len(v1.from_lib) > before.0;
+        let wrote_impostor = world::tap_len(v2.from_lib) > before.1;
+        let sends = !matches!(local, Ty::Pull | Ty::Sub);
+        obs2.borrow_mut().push(format!("first peer still served: {}", ok && (!sends || wrote_first)));
+        obs2.borrow_mut().push(format!("impostor written to afterwards: {}", wrote_impostor));
+        world::set_cond("done");
+        world::wait_cond("never").await;
+        drop(sock);
+    });
+    let end = world::run(e3::HORIZON);
+    let mut v = Verdict::default();
+    v.truncated = end != world::RunEnd::Quiescent;
+    let what = format!("local {}: with a peer of {}-byte identity connected and working, a second connection sends a valid greeting and a READY announcing THE SAME identity and Socket-Type {:?}", local.name(), id_len, bad_type);
+    for p in world::panics() {
+        v.violate("panic", format!("{}: {}", what, p));
+    }
+    if v.truncated {
+        v.violate("spin", format!("{}: no quiescence", what));
+    }
+    let o = obs.borrow().clone();
+    if world::panics().is_empty() && !v.truncated {
+        if !world::cond("done") {
+            v.violate("impostor/app-stuck", format!("{}: {:?}", what, o));
+        } else {
+            if !o.iter().any(|l| l == "attach(first) -> Ok") {
+                v.violate("impostor/first-not-admitted", format!("{}: {:?}", what, o));
+            }
+            if !o.iter().any(|l| l == "attach(impostor) -> Err") {
+                v.violate("admitted-but-must-reject/socket-type", format!("{}: {:?}", what, o));
+            }
+            if !o.iter().any(|l| l == "first peer still served: true") || !o.iter().any(|l| l == "impostor written to afterwards: false") {
+                v.violate("impostor/refused-peer-changed-the-peer-set", format!("{}: the impostor was refused, but the established peer is no longer served (or the impostor is): {:?}", what, o));
+            }
+        }
+    }
+    v.outcome_hash = rc::fnv(o.join("|").as_bytes());
+    e3::finish(v)
+}
+
 fn scenario(cfg: &Cfg) -> Verdict {
     world::reset(world::WorldCfg {
         nested_env: false,
@@ -581,6 +702,11 @@ pub fn run(tier: Tier, replay: Option<String>) -> i32 {
             return if r == Ok(rfc_compatible(a.as_str(), b.as_str())) { 0 } else { 1 };
         }
         return crate::replay::replay_e3(&v, |p| {
+            if p["scenario"] == "impostor" {
+                let (local, id_len) = (Ty::from_name(p["local"].as_str()?)?, p["id_len"].as_u64()? as usize);
+                let bad: &'static str = match p["bad_type"].as_str()? { "FOO" => "FOO", "STREAM" => "STREAM", _ => "PAIR" };
+                return Some(std::sync::Arc::new(move || impostor_scenario(local, id_len, bad)) as zvcore::explore::Scenario);
+            }
             if p["scenario"] == "twin" {
                 let (local, id_len, first_open) = (Ty::from_name(p["local"].as_str()?)?, p["id_len"].as_u64()? as usize, p["first_open"].as_bool()?);
                 return Some(std::sync::Arc::new(move || twin_scenario(local, id_len, first_open)) as zvcore::explore::Scenario);
@@ -730,6 +856,14 @@ pub fn run(tier: Tier, replay: Option<String>) -> i32 {
         }
     }
     ck.cov("handshakes_delivered_in_two_pieces", n_cuts);
+    // a refused peer that announces the identity of a live one
+    for local in ALL_TYPES {
+        for id_len in [1usize, 16, 255] {
+            for bad in ["PAIR", "FOO", "STREAM"] {
+                jobs.push(e3::job(format!("C04/impostor/{}/{}/{}", local.name(), id_len, bad), json!({"scenario":"impostor","local":local.name(),"id_len":id_len,"bad_type":bad}), 0, 4, move || impostor_scenario(local, id_len, bad)));
+            }
+        }
+    }
     // an identity that is already in the table
     for local in ALL_TYPES {
         for id_len in [1usize, 16, 255] {
@@ -750,7 +884,7 @@ pub fn run(tier: Tier, replay: Option<String>) -> i32 {
     ck.cov("compat_queries", n_q);
     ck.cov("identity_length_sweep_handshakes", n_idsweep);
     ck.cov("exhaustive", true);
-    ck.cov("explanation", "complete product 9 local types x 15 peer Socket-Type values (12 names, FOO, req, missing) x 5 versions x 5 mechanisms x 3 signature variants x 5 identity options x 5 first items (READY / another command / a message / PING then READY / SUBSCRIBE then READY) = 253125 real handshakes over in-memory pipes, each compared with the reference admission predicate; every configuration the reference admits is run a second time with a behavioural registration probe (second peer, strict alternation of 4 sends / exactly-once publish / routed send / reply); plus the identity axis in full (every Identity length 2..=254 and 257..=300 for every local type against each of the 12 peer type names, otherwise well-formed; admitted ones with the registration probe); plus a segmentation axis (for every local type its compatible peers in 4 version/identity/first-item combinations and a few that must be refused: the peer's bytes arrive in two pieces, the first of every length; coverage.handshakes_delivered_in_two_pieces); plus, for every local type, a second connection announcing an identity (1 / 16 / 255 bytes) that is already in the table (first connection still open, or closed unnoticed): both admitted, and the socket's own traffic works with the second; plus all 144 compatible() queries under catch_unwind against the RFC table, incl. symmetry. states = configurations; transitions = handshake executions.");
+    ck.cov("explanation", "complete product 9 local types x 15 peer Socket-Type values (12 names, FOO, req, missing) x 5 versions x 5 mechanisms x 3 signature variants x 5 identity options x 5 first items (READY / another command / a message / PING then READY / SUBSCRIBE then READY) = 253125 real handshakes over in-memory pipes, each compared with the reference admission predicate; every configuration the reference admits is run a second time with a behavioural registration probe (second peer, strict alternation of 4 sends / exactly-once publish / routed send / reply); plus the identity axis in full (every Identity length 2..=254 and 257..=300 for every local type against each of the 12 peer type names, otherwise well-formed; admitted ones with the registration probe); plus a segmentation axis (for every local type its compatible peers in 4 version/identity/first-item combinations and a few that must be refused: the peer's bytes arrive in two pieces, the first of every length; coverage.handshakes_delivered_in_two_pieces); plus, for every local type, a second connection announcing an identity (1 / 16 / 255 bytes) that is already in the table (first connection still open, or closed unnoticed): both admitted, and the socket's own traffic works with the second; and a REFUSED peer (valid greeting + READY with Socket-Type PAIR / FOO / STREAM) that announces the identity of a live, working peer: refused, and the live peer goes on being served; plus all 144 compatible() queries under catch_unwind against the RFC table, incl. symmetry. states = configurations; transitions = handshake executions.");
     ck.assume("the handshake code is sequential: no scheduling choice influences admission (one execution per configuration, default schedule)");
     ck.assume("RFC compatibility table transcribed in c04.rs::rfc_compatible");
     ck.conclude()
